@@ -12,7 +12,7 @@ EXTENDS Assets, Sequences
 
 IsPush(op) == op.op \in {"empty", "from_naked", "from_named", "from_defined",
                          "from_asset", "from_class"}
-IsDerived(op) == op.op \in {"add", "sub", "neg", "roundtrip"}
+IsDerived(op) == op.op \in {"add", "sub", "neg", "roundtrip", "relist"}
 
 Result(regs, op) ==
     CASE op.op = "empty"        -> EmptyVal
@@ -25,6 +25,9 @@ Result(regs, op) ==
       [] op.op = "sub"          -> VSub(regs[op.i], regs[op.j])
       [] op.op = "neg"          -> VNeg(regs[op.i])
       [] op.op = "roundtrip"    -> regs[op.i]
+      \* the asset-expression lists of two registers, one after the other, read back as one list: a list means the sum
+      \* of its entries, also when a class is named more than once
+      [] op.op = "relist"       -> VAdd(regs[op.i], regs[op.j])
 
 \* every amount of the ideal result is representable by the code (i128)
 Representable(v) == \A c \in DOMAIN v : FitsI128(v[c])
@@ -50,4 +53,5 @@ RepResult(reps, op) ==
       [] op.op = "sub"          -> RepSub(reps[op.i], reps[op.j])
       [] op.op = "neg"          -> RepNeg(reps[op.i])
       [] op.op = "roundtrip"    -> RepAdd(RepEmpty, reps[op.i])   \* rebuilt by folding with +
+      [] op.op = "relist"       -> RepAdd(RepAdd(RepEmpty, reps[op.i]), reps[op.j])
 =============================================================================
